@@ -128,14 +128,19 @@ def evaluate(cfg):
             o.call()
             idx = {t: n for n, t in enumerate(orders)}
             pred = np.zeros_like(got)
+            amp = np.zeros_like(got)
             for (i, j, k), n in idx.items():
                 for p in range(i + 1):
                     for q in range(j + 1):
                         for r in range(k + 1):
-                            pred[:, :, n] += (binom(i, p) * binom(j, q) * binom(k, r) * d[0] ** (i - p)
-                                              * d[1] ** (j - q) * d[2] ** (k - r) * got[:, :, idx[(p, q, r)]])
+                            f = (binom(i, p) * binom(j, q) * binom(k, r) * d[0] ** (i - p)
+                                 * d[1] ** (j - q) * d[2] ** (k - r))
+                            pred[:, :, n] += f * got[:, :, idx[(p, q, r)]]
+                            amp[:, :, n] += abs(f) * np.abs(got[:, :, idx[(p, q, r)]])
             sc2 = cs_scale(shells, C2, orders)
-            o.cmp("origin shift = binomial expansion in lower moments", got_c2, pred, TOL, sc2)
+            # the expansion is evaluated in double precision from the library's own lower moments: its rounding
+            # error is proportional to the sum of |terms| (cancellation), not to the result
+            o.cmp("origin shift = binomial expansion in lower moments", got_c2, pred, TOL, sc2 + 1e-4 * amp)
     elif cfg["test"] == "lists":
         refall = oneel.matrix_multi(shells, shells, [oneel.MOMENT(*t) for t in ALL], C)
         scall = cs_scale(shells, C, ALL)
